@@ -147,6 +147,37 @@ Proof.
 Qed.
 Print Assumptions C14_no_abort.
 
+(* The flag translation tables (uv_poll_start: UV to POLL flags, uv__poll_io: back), for
+   every one of the 16 request masks: READABLE 1 -> POLLIN 1, WRITABLE 2 -> POLLOUT 4,
+   DISCONNECT 4 -> POLLRDHUP 0x2000, PRIORITIZED 8 -> POLLPRI 2, and combinations. *)
+Theorem C14_flag_table :
+  map poll_of_uv [0; 1; 2; 3; 4; 5; 6; 7; 8; 9; 10; 11; 12; 13; 14; 15] =
+  [0; 1; 4; 5; 8192; 8193; 8196; 8197; 2; 3; 6; 7; 8194; 8195; 8198; 8199] /\
+  forall v, In v [0; 1; 2; 3; 4; 5; 6; 7; 8; 9; 10; 11; 12; 13; 14; 15] ->
+    uv_of_poll (poll_of_uv v) = v /\ uv_of_mask (mask_of_uv v) = v /\
+    mand (mask_of_uv v) ALLEV = mask_of_uv v.
+Proof. split; [exact flag_table|exact flag_roundtrip]. Qed.
+Print Assumptions C14_flag_table.
+
+(* uv__poll_stop clears all four flags.  Finite sweep (the domain is the 16 request masks,
+   2 ring settings, 2 disciplines): start with mask v, let the registration reach the
+   kernel - the kernel then has exactly the translation of v -, stop: the watcher requests
+   nothing, w->events = 0, it is out of the registry, inactive, and at the next epoll_pwait
+   nothing is registered in the kernel under its descriptor. *)
+Theorem C14_stop_clears_every_mask :
+  forall ring strict v, In v [0; 1; 2; 3; 4; 5; 6; 7; 8; 9; 10; 11; 12; 13; 14; 15] ->
+  sweep_ok ring strict v = true.
+Proof. exact stop_sweep. Qed.
+Print Assumptions C14_stop_clears_every_mask.
+
+(* ... and in every reachable state, for whatever was requested *)
+Theorem C14_stop_clears_all :
+  forall s i, NI s -> (i < length (hs s))%nat ->
+  h_pev (hget (poll_stop s i) i) = m0 /\ h_ev (hget (poll_stop s i) i) = m0 /\
+  forall fd, reg (poll_stop s i) fd <> Some i.
+Proof. exact stop_clears_all. Qed.
+Print Assumptions C14_stop_clears_all.
+
 (* Keeps firing (level-triggered): an entry of the batch that has not been
    invalidated, names a descriptor with a poll watcher and reports a requested event
    or POLLERR/POLLHUP always reaches the user's callback - in every state, hence in
